@@ -135,6 +135,7 @@ theorem receivedMaxStreamData_view {s s' : State} {id n : Nat} {e : Option TErr}
   unfold State.receivedMaxStreamData at h
   osplit h
   · exact Or.inl ⟨by rw [← h.2]; rfl, h.1.symm⟩
+  · exact Or.inl ⟨by rw [← h.2]; rfl, h.1.symm⟩
   · -- a sending half exists
     have hg := ‹State.getOrInsertSend _ _ = some _›
     rename_i x s1 _
